@@ -293,6 +293,7 @@ def check_exhaustive(rep, name, cdc, ts, hexdata, n_items, limit):
     ends = [int(x.split('@')[1]) for x in whole.tokens if x.startswith('V@')]
     bad = 0
     for chunks in partitions(data):
+        common.arm_watchdog()       # the deadline is for one run of the decoder to come back, not for the 2^(n-1) partitions
         for sched in variants(chunks):
             for kind in KINDS + ('K5',):
                 if not check_schedule(rep, name, cdc, ts, t, spec, data, whole, kind, sched, item_ends=ends,
@@ -531,10 +532,20 @@ def check_large(rep):
     """streams longer than the wrapper's 8192-octet cache window (indefinite-length containers only: a definite-length
     container crossing the window on a non-seekable stream is the recorded finding S4 of C11)"""
     body = b''.join(b'\x04\x82\x01\x90' + bytes([65 + i]) * 400 for i in range(24))
+
+    def big(ch, n):
+        return b'\x04\x82' + n.to_bytes(2, 'big') + ch * n
     streams_ = [
         ('large-indef-seqof', 'ber', None, b'\x30\x80' + body + b'\x00\x00' + b'\x02\x01\x07' + b'\x30\x80\x02\x01\x01\x00\x00', 3),
         ('large-nested-indef', 'ber', None, b'\x30\x80\x02\x01\x05\x30\x80' + body + b'\x00\x00\x01\x01\xff\x00\x00' + b'\x05\x00', 2),
         ('large-many-items', 'ber', '(str 4)', body, 24),
+        # top-level primitive items larger than the cache window and of EQUAL size side by side, and item sizes that add up to a
+        # later item's size (the positions the wrapper reports restart at a mark past the window: "the position did not move"
+        # must not be read off them)
+        ('equal-big-items-x2', 'ber', None, big(b'q', 9000) * 2, 2),
+        ('equal-big-items-x3', 'ber', None, big(b'r', 9000) * 3 + b'\x02\x01\x07', 4),
+        ('sizes-adding-up', 'ber', '(str 4)', big(b's', 4996) * 2 + big(b't', 9996) + b'\x04\x01u', 4),
+        ('sizes-adding-up-2', 'ber', '(str 4)', big(b's', 8996) + big(b't', 8996) + big(b'w', 18000 - 8) + b'\x04\x01u', 4),
     ]
     for name, cdc, ts, data, n_items in streams_:
         t = ty_of(ts)
